@@ -38,7 +38,12 @@ func UnHex(s string) []byte {
 }
 
 // SentinelErr is the error injected by faulty sources/sinks; compared by identity.
-type SentinelErr struct{ Tag int }
+type SentinelErr struct {
+	Tag int
+	TO  bool // reports Timeout() == true, as a deadline error of a network connection does
+}
+
+func (e *SentinelErr) Timeout() bool { return e.TO }
 
 func (e *SentinelErr) Error() string { return fmt.Sprintf("sentinel-%d", e.Tag) }
 
